@@ -35,15 +35,19 @@ from typing import Any, Callable, Iterator, Optional
 
 from bounded import _c13_oracle as O
 
-RULE = ("P: every assignment of one of 5 hit sets (none, a, c, a+b apart, a+b overlapping with equal score) to "
-        "each gene of a 4-gene linear record and a 3-gene circular record with a gene next to the origin "
-        "(452 scenarios: the equal-score pair in at most one gene), 5 rules of which ra/rb/rab and rc/rac give protoclusters with identical coordinates; each scenario "
-        "run in children with PYTHONHASHSEED 0..7 and in-process under 4 set-iteration permutations. "
-        "T: all sets of <= 3 hits of the C13 grids that contain a tie (equal start, equal score, identical "
-        "coordinates) for refine_hmmscan_results (8 seeds; every permutation of the per-protein set), "
-        "hmmer.remove_overlapping (8 seeds) and filter_results (every slot assignment = memory layout). "
-        "A case is one scenario / one hit set (+ mode); non-trivial: a P scenario yields >= 1 protocluster and "
-        "has a gene with two hits or two genes with hits; a T set has >= 2 hits; distinct = distinct case.")
+RULE = ("P (pipeline scenarios): a 4-gene linear record and a 3-gene circular record with a gene next to the origin; "
+        "every gene gets one of the hit sets (none, a, c, a+b apart) and, in at most one gene, the equal-score "
+        "overlapping pair a/b of equivalent profiles (453 scenarios; thorough: 7 hit sets everywhere, 2,742); 5 rules "
+        "of which ra/rb/rab and rc/rac yield protoclusters with identical coordinates.  Each scenario runs "
+        "detection -> protoclusters -> candidate clusters -> regions -> GenBank -> JSON in child processes with "
+        "PYTHONHASHSEED 0..7 (thorough 0..15) and in-process under 4 (thorough 8) permutations of the iteration order "
+        "of every set built by `set(...)` in the anchored modules; the six stage dumps are compared byte-wise.  "
+        "T (hits kept): all sets of 2-3 hits of the C13 grids q3, q5 / h1 that contain a tie (equal start, equal "
+        "score, identical coordinates) for refine_hmmscan_results (8 seeds; every iteration order of the per-protein "
+        "set) and hmmer.remove_overlapping (8 seeds); filter_results on the C13 sets f0, f1, f2 with every slot "
+        "(address) assignment of the HSP objects.  A case is one scenario / one hit set (+ mode); non-trivial: a P "
+        "scenario yields >= 1 protocluster and has a gene with two hits or two genes with hits, a T set has >= 2 hits; "
+        "distinct = distinct case.")
 EXHAUSTIVE = {"quick": True, "thorough": False}
 
 STAGES = ["detection-json", "protoclusters", "candidates", "regions", "genbank", "json"]
